@@ -112,6 +112,12 @@ def classify(c, prop):
             return "harness", Finding(prop, "harness", t.get("detail", ""), c, [], "harness")
         what = t.get("what", "?")
         key = "%s:%s:%s" % (t.get("oracle", "?"), variant, what)
+        if t.get("oracle") == "crash":
+            # an assertion of the allocator: identify the site (file + function) instead of the operation that happened to run
+            m = re.search(r"assertion failed: at '([^']+)':\d+, (\w+)", t.get("detail", ""))
+            if m:
+                key = "crash:%s:assert:%s:%s" % (variant, os.path.basename(m.group(1)), m.group(2)[:48])
+                if "invalid (unaligned) pointer" in t.get("detail", ""): key += ":unaligned-pointer"
         f = Finding(prop, key, t.get("detail", ""), c, refutes, "trip")
         return ("violation" if prop in refutes else "collateral"), f
     if r is not None and c.exit == 0 and not c.timed_out:
